@@ -60,7 +60,7 @@ ASSUMPTIONS = [
 CLASSES = ["generic", "degenerate", "edge48", "two_equal_axes", "f64_narrow", "special_floats", "int_extremes", "layouts",
            "no_transpose", "data_type_opt", "raw_reader", "raw_reader_variants", "em2mrc", "mrc2em", "overwrite_refusal",
            "int_min_invert", "read_edit_reread", "data_type_grid", "block_boundaries", "repr_boundaries", "name_tokens",
-           "write_mutate_rewrite"]
+           "write_mutate_rewrite", "relative_paths", "odd_paths", "flag_kinds", "constant_values", "anchor_chain"]
 KEY_INTMIN = "int-min-negation-wraps"
 DTYPES = [np.float32, np.float64, np.int16, np.int8]
 STEMS = ["vol", "emd_1234", "membrane", "a.em", "mrc_avg", "x.mrc", "tomo.rec", "with space", "semrc.em.mrc", "stem"]
@@ -68,20 +68,26 @@ TOKEN_STEMS = ["ts01.rec", "vol.em", "vol.mrc", "a.em.rec", "x.mrc.em", "tilt.st
                "emrec.mrc.rec.em", "t.1", "run.em.2"]
 TOKEN_DIRS = ["session.mrc", "run.em", "data.rec", "x.em.mrc", "plain"]
 RT_STEMS = ["rt", "ts01.rec", "vol.em", "x.mrc", "tilt.st", "a.rec.mrc.em", "stack.ali", "b.em.rec"]
+PATH_STEMS = ["ribosome", "frame", "them", "em", "mrc", "rec", "map [1]", "a*b", "q?", "\u00fcn\u00ef c\u00f8d\u00e9", "\u65e5\u672c\u8a9e", "x'y", "#h", "%d",
+              "-dash", "..dots", "norm", "cmrc", "theme.em", "mem.mrc"]
+PATH_DIRS = ["dir [x] \u00fc", os.path.join("sub dir", "deeper"), "glob*?", "d.em", "plain2"]
+REL_MODES = ["bare", "dot", "sub", "up", "hop"]
+TRUE_KINDS = [True, np.True_, 1, np.int64(1), np.array(True), np.bool_(True)]
+FALSE_KINDS = [False, np.False_, 0, np.int64(0), np.array(False), 0.0, np.float64(0), -0.0]
 READ_SPELLINGS = {"float64": orc.SPELLINGS["float64"], "float32": orc.SPELLINGS["float32"], "int16": orc.SPELLINGS["int16"]}
 
 
 def plan(tier):
     if tier == "quick":
-        return dict(n_cases=50 * len(CLASSES), shards=4, classes=CLASSES, timeout_s=600,
+        return dict(n_cases=50 * len(CLASSES), shards=6, classes=CLASSES, timeout_s=600,
                     min_evals={"write_bytes": 5500, "read_matches_bytes": 10000, "roundtrip": 4500, "raw_read": 2200,
                                "convert_voxels": 1300, "overwrite_refusal": 400,
-                               "reread_after_edit": 2200, "read_results_independent": 1300, "rewrite_history": 1800},
+                               "reread_after_edit": 2200, "read_results_independent": 1300, "rewrite_history": 1800, "anchor_chain": 300},
                     min_anchor_calls={"cryomap.em2mrc": 300, "cryomap.mrc2em": 300}, min_known={"int-min-negation-wraps": 10})
     return dict(n_cases=2000 * len(CLASSES), shards=16, classes=CLASSES, timeout_s=3000,
                 min_evals={"write_bytes": 120000, "read_matches_bytes": 160000, "roundtrip": 90000, "raw_read": 36000,
                            "convert_voxels": 36000, "overwrite_refusal": 5500,
-                           "reread_after_edit": 60000, "read_results_independent": 20000, "rewrite_history": 60000},
+                           "reread_after_edit": 60000, "read_results_independent": 20000, "rewrite_history": 60000, "anchor_chain": 12000},
                 min_anchor_calls={"cryomap.em2mrc": 12000, "cryomap.mrc2em": 12000}, min_known={"int-min-negation-wraps": 200})
 
 
@@ -154,7 +160,7 @@ def setup(ctx):
     ctx.cmap = cryomap
     fw = monitors.wrap(ctx, cryomap, "write", "write_bytes", _w_post, _w_applicable, _w_snapshot)
     fr = monitors.wrap(ctx, cryomap, "read", "read_matches_bytes", _r_post, _r_applicable, _r_snapshot)
-    ctx.declare("roundtrip", "raw_read", "convert_voxels", "overwrite_refusal", "reread_after_edit", "read_results_independent", "rewrite_history")
+    ctx.declare("roundtrip", "raw_read", "convert_voxels", "overwrite_refusal", "reread_after_edit", "read_results_independent", "rewrite_history", "anchor_chain")
     monitors.trace(ctx, [
         ("cryomap.read", fr, {"mrc_or_rec": "mrcfile.open", "em": "emfile.read", "bad_extension": "is neither em or mrc",
                               "transpose": "data.transpose(2, 1, 0)", "ndarray_input": "np.array(input_map)",
@@ -221,7 +227,7 @@ def gen(ctx, i, cls):
     elif cls == "int_min_invert":
         dtype, kind = [np.int16, np.int8][i // len(CLASSES) % 2], "int_min"
     elif cls == "layouts":
-        layout = ["F", "strided", "reversed", "transposed_view", "readonly"][i // len(CLASSES) % 5]
+        layout = ["F", "strided", "reversed", "transposed_view", "readonly", "swap12", "swap01_neg"][i // len(CLASSES) % 7]
     elif cls == "no_transpose":
         wT, rT = [(False, False), (False, True), (True, False)][i // len(CLASSES) % 3]
     if cls == "data_type_opt" or (cls in ("generic", "degenerate", "no_transpose") and rng.random() < 0.25):
@@ -273,6 +279,24 @@ def gen(ctx, i, cls):
             wdt = [float, np.float32, "d", "float32"][idx // 4 % 4]
     elif cls == "write_mutate_rewrite" and idx % 3 == 0:
         kind = "dup_slabs"
+    elif cls == "constant_values":
+        kind = ["zeros", "constant", "zero_stride", "ones_mask", "one_hot"][idx % 5]
+        dtype = DTYPES[(idx // 5) % 4]
+        if kind == "zeros":
+            arr = np.zeros(shape, dtype=dtype)
+        elif kind == "constant":
+            arr = np.full(shape, [7, -3, 1, 100][idx % 4], dtype=dtype)
+        elif kind == "ones_mask":
+            arr = np.ones(shape, dtype=dtype)
+        elif kind == "one_hot":
+            arr = np.zeros(shape, dtype=dtype)
+            arr.flat[int(rng.integers(0, arr.size))] = 1
+        else:
+            arr = np.repeat(orc.make_values(rng, shape[:2] + (1,), dtype, "normal"), shape[2], axis=2)
+            layout = "zero_stride"
+        wT, rT = bool(idx % 3), bool(idx % 2)
+    elif cls in ("anchor_chain", "relative_paths", "odd_paths", "flag_kinds") and idx % 4 == 3:
+        layout = ["F", "swap12", "reversed", "swap01_neg", "strided"][idx // 4 % 5]
     if arr is not None:
         pass
     elif kind == "smallint_floats":
@@ -303,6 +327,26 @@ def gen(ctx, i, cls):
         rt_dir = [None, "session.mrc", "run.em", "data.rec"][(idx // 3) % 4] if cls == "name_tokens" else None
         if cls == "name_tokens":
             conv.update(explicit=bool(idx % 2), overwrite=[None, False, True, False][idx % 4], preexisting=bool(idx // 2 % 2))
+    if cls == "odd_paths" or rng.random() < 0.12:
+        conv["stem"] = PATH_STEMS[(idx * 3 + int(rng.integers(0, 3))) % len(PATH_STEMS)]
+        conv["dir"] = PATH_DIRS[idx % len(PATH_DIRS)]
+        rt_stem = PATH_STEMS[(idx * 3 + 1 + int(rng.integers(0, 2))) % len(PATH_STEMS)]
+        rt_dir = [None] + PATH_DIRS
+        rt_dir = rt_dir[(idx // 2) % len(rt_dir)]
+    relmode = None
+    if cls == "relative_paths":
+        relmode = REL_MODES[idx % len(REL_MODES)]
+        conv.update(explicit=bool(idx % 2 == 0 or idx % 5 == 0), overwrite=[None, False, True, False][idx // 2 % 4], preexisting=bool(idx // 2 % 2))
+    elif i % 5 == 1:
+        relmode = REL_MODES[(i // 5) % len(REL_MODES)]
+    conv["src_abs"] = bool(relmode is not None and (idx + i) % 3 == 0)
+    conv["out_subdir"] = bool(conv["explicit"] and (idx + i) % 4 < 2 and (relmode is not None or rng.random() < 0.2))
+    flags = 0
+    if cls == "flag_kinds" or i % 7 == 6:
+        flags = 1 + idx % 40 if cls == "flag_kinds" else 1 + int(rng.integers(0, 40))
+    if cls == "flag_kinds":
+        wT, rT = bool(idx % 2), bool(idx // 2 % 2)
+        conv.update(invert=bool(idx % 3 == 0) and np.dtype(arr.dtype).kind == "f", overwrite=[False, True, False, None][idx % 4], preexisting=bool(idx % 4 != 3))
     if cls == "overwrite_refusal":
         conv.update(overwrite=False, preexisting=True)
     raw = [{"ext": [".em", ".mrc", ".rec"][int(rng.integers(0, 3))], "ispg": None, "nsymbt": 0}]
@@ -317,12 +361,13 @@ def gen(ctx, i, cls):
             "conv": conv, "raw": raw, "kind": kind, "positional": bool(rng.random() < 0.15),
             "refusals": i % 8 == 3, "invert_contrast": i % 6 == 1,
             "edit_reread": cls == "read_edit_reread" or i % 4 == 2, "rt_stem": rt_stem, "rt_dir": rt_dir,
-            "rewrite": cls == "write_mutate_rewrite" or i % 6 == 5}
+            "rewrite": cls == "write_mutate_rewrite" or i % 6 == 5, "relmode": relmode, "flags": flags,
+            "chain": cls == "anchor_chain" or i % 5 == 3}
     flat = arr.ravel()
     case["summary"] = {"shape_xyz": list(shape), "dtype": str(arr.dtype), "values": kind, "layout": layout,
                        "write": {"transpose": wT, "data_type": None if wdt is None else orc.spelling_repr(wdt)},
                        "read": {"transpose": rT, "data_type": None if rdt is None else orc.spelling_repr(rdt)}, "rt_name": [rt_dir, rt_stem],
-                       "rewrite": case["rewrite"],
+                       "rewrite": case["rewrite"], "relmode": relmode, "flag_kind": flags, "chain": case["chain"],
                        "convert": conv, "raw": raw, "edit_reread": case["edit_reread"], "first_voxels": [repr(v) for v in flat[:4].tolist()]}
     return case
 
@@ -343,6 +388,20 @@ def _expected_back(disk_xyz, rT, rdt):
     return exp
 
 
+def _flag(case, value, salt=0):
+    """the same truth value in another scalar kind (numpy bool, int, 0-d array, float zero ...) when the case asks for it."""
+    k = case.get("flags", 0)
+    if not k or value is None:
+        return value
+    pool = TRUE_KINDS if value else FALSE_KINDS
+    return pool[(k + salt) % len(pool)]
+
+
+def _mk(path):
+    if path:
+        os.makedirs(path, exist_ok=True)
+
+
 def _roundtrips(ctx, case, d):
     cm = ctx.cmap
     arr = case["arr"]
@@ -352,23 +411,24 @@ def _roundtrips(ctx, case, d):
     if disk is None:
         raise RuntimeError("generator produced an out-of-quantifier write: %r" % (case["summary"],))
     rd = d if not case.get("rt_dir") else os.path.join(d, case["rt_dir"])
-    os.makedirs(rd, exist_ok=True)
+    _mk(rd)
+    fl = bool(case.get("flags"))
     for ext in case["exts"]:
         path = os.path.join(rd, case.get("rt_stem", "rt") + ext)
         if case["positional"]:
-            ok, _ = ctx.call("write", cm.write, given, path, case["wT"], case["wdt"])
+            ok, _ = ctx.call("write", cm.write, given, path, _flag(case, case["wT"]), case["wdt"])
         else:
             kw = {}
-            if not case["wT"] or case["i"] % 5 == 0:
-                kw["transpose"] = case["wT"]
+            if not case["wT"] or case["i"] % 5 == 0 or fl:
+                kw["transpose"] = _flag(case, case["wT"])
             if case["wdt"] is not None:
                 kw["data_type"] = case["wdt"]
             ok, _ = ctx.call("write", cm.write, given, path, **kw)
         if not ok:
             continue
         kw = {}
-        if not case["rT"]:
-            kw["transpose"] = False
+        if not case["rT"] or fl:
+            kw["transpose"] = _flag(case, case["rT"], 1)
         if case["rdt"] is not None:
             kw["data_type"] = case["rdt"]
         ok, back = ctx.call("read", cm.read, path, **kw)
@@ -384,6 +444,8 @@ def _roundtrips(ctx, case, d):
                                                            write_data_type=None if case["wdt"] is None else orc.spelling_repr(case["wdt"]),
                                                            read_data_type=None if case["rdt"] is None else orc.spelling_repr(case["rdt"]),
                                                            in_dtype=str(arr.dtype), layout=case["layout"]))
+        if case.get("chain") and (case["cls"] == "anchor_chain" or ext == case["exts"][case["i"] // 5 % 3]):
+            _anchor_chain(ctx, case, d, path, disk, ext)
         if case["edit_reread"] and (case["cls"] == "read_edit_reread" or ext == case["exts"][case["i"] // 4 % 3]):
             _edit_reread(ctx, case, d, path, back, kw)
         if case["invert_contrast"] and ext == case["exts"][case["i"] % 3]:
@@ -406,8 +468,8 @@ def _raw_reads(ctx, case, d):
             ispg = 1                              # nz = 1 with space group 0 is a single image (ASSUMPTIONS)
         orc.raw_write(path, X, ispg=ispg, nsymbt=r["nsymbt"])
         kw = {}
-        if not case["rT"]:
-            kw["transpose"] = False
+        if not case["rT"] or case.get("flags"):
+            kw["transpose"] = _flag(case, case["rT"], 2)
         if case["rdt"] is not None:
             kw["data_type"] = case["rdt"]
         ok, back = ctx.call("read(raw file)", cm.read, path, **kw)
@@ -444,7 +506,7 @@ def _convert(ctx, case, d):
     f = getattr(cm, c["direction"])
     src_ext, out_ext = (".em", ".mrc") if c["direction"] == "em2mrc" else (".mrc", ".em")
     X = orc.narrowed(case["arr"])
-    sub = os.path.join(d, c.get("dir", "conv.dir"))
+    sub = os.path.join(d, "cv", c.get("dir", "conv.dir"))       # never the folder of the round-trip files
     os.makedirs(sub, exist_ok=True)
     src = os.path.join(sub, c["stem"] + src_ext)
     if c["src_by"] == "raw":
@@ -453,7 +515,16 @@ def _convert(ctx, case, d):
         ok, _ = ctx.call("write(source)", cm.write, case["arr"], src)
         if not ok:
             return
-    out = os.path.join(d, "out_" + c["stem"] + out_ext) if c["explicit"] else src[:-len(src_ext)] + out_ext
+    if c.get("out_subdir") and c["explicit"]:
+        od = os.path.join(d, "converted", "o.%d" % (case["i"] % 3))     # an explicit name with its own (existing) sub-directory
+        _mk(od)
+        out = os.path.join(od, "out_" + c["stem"] + out_ext)
+    else:
+        out = os.path.join(d, "out_" + c["stem"] + out_ext) if c["explicit"] else src[:-len(src_ext)] + out_ext
+    if c.get("src_abs"):
+        src = os.path.abspath(src)                 # input with an absolute folder, output name still as chosen above
+        if not c["explicit"]:
+            out = src[:-len(src_ext)] + out_ext
     sentinel = None
     if c["preexisting"]:
         if c["sentinel"] == "valid":
@@ -463,10 +534,10 @@ def _convert(ctx, case, d):
                 fh.write(b"sentinel-not-a-map" * 9)
         sentinel = open(out, "rb").read()
     kw = {}
-    if c["invert"]:
-        kw["invert"] = True
+    if c["invert"] or case.get("flags"):
+        kw["invert"] = _flag(case, c["invert"], 3)
     if c["overwrite"] is not None:
-        kw["overwrite"] = c["overwrite"]
+        kw["overwrite"] = _flag(case, c["overwrite"], 4)
     if c["explicit"]:
         kw["output_name"] = out
     label = c["direction"]
@@ -475,7 +546,7 @@ def _convert(ctx, case, d):
             raised = None
             try:
                 if c["positional"] and attempt == 2:
-                    f(src, kw.get("invert", False), False, kw.get("output_name"))
+                    f(src, kw.get("invert", False), _flag(case, False, 5), kw.get("output_name"))
                 else:
                     f(src, **kw)
             except Exception as e:
@@ -488,7 +559,7 @@ def _convert(ctx, case, d):
                                                                     "output_len_now": None if now is None else len(now), "sentinel_len": len(sentinel)})
             if not good:
                 break
-        kw["overwrite"] = True                     # then the permitted overwrite must produce the conversion
+        kw["overwrite"] = _flag(case, True, 6)     # then the permitted overwrite must produce the conversion
         with open(out, "wb") as fh:                # (from the same starting point)
             fh.write(sentinel)
     if c["positional"]:
@@ -505,9 +576,9 @@ def _judge_conversion(ctx, label, out, X, invert, d, info):
     exp = _negated(X) if invert else X
     if not os.path.isfile(out):
         present = []
-        for root, _, fs in os.walk(d):
+        for root, _, fs in os.walk(d or "."):
             present += [os.path.relpath(os.path.join(root, f), d) for f in fs]
-        ctx.check("convert_voxels", False, dict(info, function=label, missing_output=os.path.relpath(out, d), files_present=sorted(present)[:30]))
+        ctx.check("convert_voxels", False, dict(info, function=label, missing_output=out, cwd_relative=not os.path.isabs(out), files_present=sorted(present)[:30]))
         return
     P = orc.parse(out)
     if "error" in P:
@@ -517,6 +588,43 @@ def _judge_conversion(ctx, label, out, X, invert, d, info):
     key = KEY_INTMIN if (not good and _intmin_wrap_only(P["data"], X, invert)) else None
     ctx.check("convert_voxels", good, None if good else dict(orc.explain(P["data"], exp), function=label, invert=invert,
                                                             header=orc.header_summary(P), source_dtype=str(X.dtype), **info), key=key)
+
+
+def _anchor_chain(ctx, case, d, path, disk, ext):
+    """objects produced by one anchor fed into another: the array read() returned is written again (any layout it has),
+    files written by the converters are converted back; each end is parsed from bytes and must hold the original voxels."""
+    cm = ctx.cmap
+    i = case["i"]
+    cd = os.path.join(d, "chain")
+    _mk(cd)
+    for rT in ((True, False) if case["cls"] == "anchor_chain" else (bool(i % 2),)):
+        ok, r = ctx.call("read(chain)", cm.read, path, transpose=rT)
+        if not ok:
+            continue
+        for e2 in ([".em", ".mrc", ".rec"] if case["cls"] == "anchor_chain" else [[".em", ".mrc", ".rec"][(i + 1) % 3]]):
+            p2 = os.path.join(cd, "again_%d%s" % (int(rT), e2))
+            ok, _ = ctx.call("write(chain)", cm.write, r, p2, transpose=rT)      # same convention both ways: file must equal `disk`
+            if not ok:
+                continue
+            good, w = orc.check_written(p2, disk, False)
+            ctx.check("anchor_chain", good, None if good else dict(w, stage="write(read(p, transpose=%s), transpose=%s)" % (rT, rT), source=ext))
+            # a view of the returned object (swapped back and forth) holds the same values
+            ok, _ = ctx.call("write(chain)", cm.write, np.swapaxes(np.swapaxes(r, 0, 2), 0, 2)[...], p2, transpose=rT)
+    if ext in (".em", ".mrc"):
+        a_ext, b_ext = (".mrc", ".em") if ext == ".em" else (".em", ".mrc")
+        f1, f2 = (cm.em2mrc, cm.mrc2em) if ext == ".em" else (cm.mrc2em, cm.em2mrc)
+        mid = os.path.join(cd, "mid" + a_ext)
+        end = os.path.join(cd, "end" + b_ext)
+        ok, _ = ctx.call("convert(chain)", f1, path, output_name=mid)
+        if ok:
+            ok, _ = ctx.call("convert(chain)", f2, mid, output_name=end)
+        if ok:
+            good, w = orc.check_written(end, disk, False)
+            ctx.check("anchor_chain", good, None if good else dict(w, stage="%s then back" % f1.__name__, source=ext))
+            ok, _ = ctx.call("convert(chain)", f2, mid)                # default name next to mid, made from a converter's output
+            if ok:
+                good, w = orc.check_written(os.path.join(cd, "mid" + b_ext), disk, False)
+                ctx.check("anchor_chain", good, None if good else dict(w, stage="default name from a converter output", source=ext))
 
 
 def _scribble(a, how):
@@ -547,7 +655,7 @@ def _edit_reread(ctx, case, d, path, first, kw):
     ext = orc.ext_of(path)
 
     def expect(k):
-        return _expected_back(X, k.get("transpose", True), k.get("data_type"))
+        return _expected_back(X, bool(k.get("transpose", True)), k.get("data_type"))
 
     def judge(stage, got, k):
         exp = expect(k)
@@ -688,19 +796,49 @@ def _refusals(ctx, case, d):
         ctx.ood("documented_refusal_or_array_input")
 
 
+def _steps(ctx, case, d, hop=None):
+    for k, step in enumerate((_roundtrips, _raw_reads, _convert,
+                              _rewrite_history if case.get("rewrite") else None, _refusals if case["refusals"] else None)):
+        if step is None:
+            continue
+        if hop is not None:
+            d = hop(k)                               # a fresh working directory before every step, bare relative names in it
+        step(ctx, case, d)
+
+
 def run_case(ctx, case):
-    d = os.path.join(ctx.scratch, "c%d" % case["i"])
-    os.makedirs(d, exist_ok=True)
+    base = os.path.join(ctx.scratch, "c%d" % case["i"])
+    os.makedirs(base, exist_ok=True)
+    old_cwd = os.getcwd()
     try:
-        _roundtrips(ctx, case, d)
-        _raw_reads(ctx, case, d)
-        _convert(ctx, case, d)
-        if case.get("rewrite"):
-            _rewrite_history(ctx, case, d)
-        if case["refusals"]:
-            _refusals(ctx, case, d)
+        mode = case.get("relmode")
+        if mode is None:
+            _steps(ctx, case, base)
+            return
+        # relative names, judged at the path relative to the CURRENT working directory (monitors and parsers resolve the
+        # same relative strings against the cwd at the time of the call)
+        def enter(name):
+            cwd = os.path.join(base, name)
+            os.makedirs(cwd, exist_ok=True)
+            os.chdir(cwd)
+        if mode == "hop":
+            def hop(k):
+                enter("hop %d" % k)
+                return ["", ".", "w"][k % 3] if k % 3 != 2 else _mkret("w")
+            _steps(ctx, case, None, hop)
+            return
+        enter("cwd_%d" % (case["i"] % 7))
+        d = {"bare": "", "dot": ".", "sub": os.path.join("sub dir", "x"), "up": os.path.join("..", "work")}[mode]
+        _mk(d)
+        _steps(ctx, case, d)
     finally:
-        shutil.rmtree(d, ignore_errors=True)
+        os.chdir(old_cwd)
+        shutil.rmtree(base, ignore_errors=True)
+
+
+def _mkret(path):
+    _mk(path)
+    return path
 
 
 def _pseudo_case(n, arr, **over):
@@ -758,26 +896,39 @@ def _option_grids(ctx, d):
                     c = _pseudo_case(n, arr, rT=rT, rdt=sp, raw=[{"ext": e, "ispg": [None, 1, 0][n % 3], "nsymbt": [0, 0, 80][n % 3]} for e in (".em", ".mrc", ".rec")])
                     _raw_reads(ctx, c, g)
                     counts["grid_read_data_type_cases"] += 1
-        # G3
-        stems = TOKEN_STEMS + STEMS
-        for direction in ("em2mrc", "mrc2em"):
-            for invert in (False, True):
-                for explicit in (False, True):
-                    for overwrite in (None, True, False):
-                        for pre in (False, True):
-                            for dt in DTYPES:
-                                n += 1
-                                rng = ctx.rng(10 ** 7 + n, 23)
-                                arr = orc.make_values(rng, _small_shape(rng), dt, "normal")
-                                conv = {"direction": direction, "invert": invert, "explicit": explicit, "stem": stems[n % len(stems)],
-                                        "dir": TOKEN_DIRS[(n // 3) % len(TOKEN_DIRS)], "src_by": ["raw", "cryomap.write"][n % 2],
-                                        "overwrite": overwrite, "preexisting": pre, "sentinel": ["junk", "valid"][(n // 2) % 2],
-                                        "positional": n % 7 == 0}
-                                g = os.path.join(d, "g3_%d" % n)
-                                os.makedirs(g, exist_ok=True)
-                                _convert(ctx, _pseudo_case(n, arr, conv=conv), g)
-                                shutil.rmtree(g, ignore_errors=True)
-                                counts["grid_conversion_cases"] += 1
+        # G3 (run twice: absolute names, then relative names after a chdir into a fresh directory)
+        stems = TOKEN_STEMS + STEMS + PATH_STEMS
+        for relative in (False, True):
+          for direction in ("em2mrc", "mrc2em"):
+              for invert in (False, True):
+                  for explicit in (False, True):
+                      for overwrite in (None, True, False):
+                          for pre in (False, True):
+                              for dt in DTYPES:
+                                  n += 1
+                                  rng = ctx.rng(10 ** 7 + n, 23)
+                                  arr = orc.make_values(rng, _small_shape(rng), dt, "normal")
+                                  conv = {"direction": direction, "invert": invert, "explicit": explicit, "stem": stems[n % len(stems)],
+                                          "dir": TOKEN_DIRS[(n // 3) % len(TOKEN_DIRS)], "src_by": ["raw", "cryomap.write"][n % 2],
+                                          "overwrite": overwrite, "preexisting": pre, "sentinel": ["junk", "valid"][(n // 2) % 2],
+                                          "positional": n % 7 == 0, "src_abs": relative and n % 3 == 0,
+                                          "out_subdir": explicit and n % 4 < 2}
+                                  g = os.path.join(d, "g3_%d" % n)
+                                  os.makedirs(g, exist_ok=True)
+                                  if relative:
+                                      here = os.getcwd()
+                                      os.chdir(g)
+                                      try:
+                                          rel = ["", ".", "w", os.path.join("..", "g3_%d" % n, "v")][n % 4]
+                                          _mk(rel)
+                                          _convert(ctx, _pseudo_case(n, arr, conv=conv, flags=(n % 9 == 0) * (1 + n % 40)), rel)
+                                      finally:
+                                          os.chdir(here)
+                                      counts["grid_conversion_relative_cases"] = counts.get("grid_conversion_relative_cases", 0) + 1
+                                  else:
+                                      _convert(ctx, _pseudo_case(n, arr, conv=conv), g)
+                                      counts["grid_conversion_cases"] += 1
+                                  shutil.rmtree(g, ignore_errors=True)
         # G4
         for layout in ("C", "F", "strided", "reversed", "transposed_view", "readonly"):
             for wT in (True, False):
@@ -789,6 +940,24 @@ def _option_grids(ctx, d):
                     os.makedirs(g, exist_ok=True)
                     _roundtrips(ctx, _pseudo_case(n, arr, layout=layout, wT=wT, rT=bool(n % 2)), g)
                     counts["grid_layout_cases"] += 1
+        # G5: relative round-trip names after a chdir, every mode x dtype x transpose
+        for mode in ("", ".", "w", os.path.join("..", "up")):
+            for dt in DTYPES:
+                for wT in (True, False):
+                    n += 1
+                    rng = ctx.rng(10 ** 7 + n, 25)
+                    arr = orc.make_values(rng, _small_shape(rng), dt, "normal")
+                    g = os.path.join(d, "g5_%d" % n, "cwd")
+                    os.makedirs(g, exist_ok=True)
+                    here = os.getcwd()
+                    os.chdir(g)
+                    try:
+                        _mk(mode)
+                        _roundtrips(ctx, _pseudo_case(n, arr, wT=wT, rT=bool(n % 2), rt_stem=PATH_STEMS[n % len(PATH_STEMS)], flags=(n % 3 == 0) * (1 + n % 40)), mode)
+                    finally:
+                        os.chdir(here)
+                    shutil.rmtree(os.path.join(d, "g5_%d" % n), ignore_errors=True)
+                    counts["grid_relative_roundtrip_cases"] = counts.get("grid_relative_roundtrip_cases", 0) + 1
     return counts
 
 
